@@ -25,7 +25,8 @@ LAWS = {
     "w32": ["LawEncodeDecode"],
     "ins": ["LawDecodeEncode", "LawFieldRange"],
     "hilo": ["LawHiLo"],
-    "exe": ["LawDecodeEncode", "LawWrites", "LawReads", "LawPc", "LawLink", "LawBranch", "LawDiv", "LawMul", "LawMem"],
+    "exe": ["LawDecodeEncode", "LawWrites", "LawReads", "LawPc", "LawLink", "LawBranch", "LawDiv", "LawMem"],
+    "mul": ["LawMul"],
 }
 
 
@@ -479,7 +480,7 @@ def enc_records(prop, which, table, rng, mode, rig, thorough=False, paths=("enc"
 
 
 # ---------------------------------------------------------------- judgement (TLC)
-def judge(ctx, recs, invariants, label, module="RV32_Eval", workers=8):
+def judge(ctx, recs, invariants, label, module="RV32_Eval", workers=6):
     """Evaluate the records in TLC; returns [(record, clause name, last state)] for every violated
     invariant.  Records carry only what TLC needs (key/text kept for reporting)."""
     if not recs:
@@ -640,7 +641,7 @@ def llvm_crosscheck(ctx, byte_lists, limit=20000):
 
 # ---------------------------------------------------------------- C07: declared register sets
 NPLANS = 12  # = Len(RV32!PairPlan)
-QUICK_REGS = (0, 1, 2, 5, 8, 9, 10, 15, 16, 31)
+QUICK_REGS = (0, 1, 2, 8, 9, 10, 15, 16, 31)
 
 
 def _xnums(regs):
@@ -714,7 +715,7 @@ def rw_records(prop, which, table, rng, thorough=False, kind="rw"):
                 skip("not encodable:%s" % cname)
                 continue
             k += 1
-            plans = list(range(1, NPLANS + 1)) if thorough else sorted({(k * 5 + j * 3) % NPLANS + 1 for j in range(4)})
+            plans = list(range(1, NPLANS + 1)) if thorough else sorted({(k * 5 + j * 4) % NPLANS + 1 for j in range(3)})
             suffix = "@%#x" % sym if LABEL in text else ""
             tk = tokenize(text)
             if tk is None:
